@@ -1,7 +1,7 @@
 """C13 - generated, smoothed and initial plates satisfy their documented shape guarantees."""
 import ast
 
-from engine.astutil import U, calls, kwargs, single_defs, inline, walk_own, call_name, attr_tail, returns, enclosing_map, names_in, arg
+from engine.astutil import U, calls, kwargs, single_defs, inline, walk_own, call_name, attr_tail, returns, enclosing_map, names_in, arg, argv
 from engine.cfg import CFG
 from engine.norm import Norm, Poly, parse_expr
 from engine.repo import AnalysisError
@@ -85,7 +85,7 @@ def r1(ctx):
         t = U(npl).replace(" ", "").replace(f"{idx[0]}.size", L).replace(f"{idx[0]}.shape[0]", L)
         ok = t in (f"math.ceil({L}/float(self.max_plate_size))", f"math.ceil({L}/self.max_plate_size)", f"int(math.ceil({L}/self.max_plate_size))",
                    f"int(np.ceil({L}/self.max_plate_size))", f"-(-{L}//self.max_plate_size)")
-        src = U(sp[0].args[0]).replace(" ", "")
+        src = U(inline(sp[0].args[0], {k: v for k, v in lenv.items() if k != idx[0]})).replace(" ", "")       # a named permutation is read through
         ok = ok and src in (f"rng.permutation({idx[0]})", idx[0])
     ctx.check("R1", f"{f.site()}::chunk-count", ok, "rows of the sample are split into ceil(len/max_plate_size) pieces (each <= max_plate_size, lemma)",
               f"the sample's rows are split into `{U(npl)}` pieces of `{U(sp[0].args[0])}`: plates can exceed max_plate_size or rows of another sample enter")
@@ -414,7 +414,8 @@ def r3(ctx):
             continue
         lst = next(iter(good_lists))
         for i, m in enumerate(merges):
-            ops = [m.func.value, m.args[0]]
+            ctx.need(len(argv(m)) == 1, f"{f.site()}: merge call `{U(m)[:60]}` does not have one operand")
+            ops = [m.func.value, argv(m)[0]]
             srcs = []
             for o in ops:
                 names, attrs = slice_names(loop, o)
